@@ -77,6 +77,11 @@ func BuildLedgerWorld(seed int64, idx int, o LedgerOpts) (*World, error) {
 		// a fourth staking asset without decimals (legal: only an upper bound is enforced), priced 7
 		cfg.Assets = append(cfg.Assets, sim.AssetCfg{Address: "0x00000000000000000000000000000000000000d0", LzChainID: 101, Decimals: 0, HasOracle: true, Price: "7", PriceDec: 0, FeederStart: 10000000, Interval: 10})
 	}
+	if o.Profile == "power" && idx%4 == 1 {
+		// a staking asset the oracle knows nothing about: every AVS that lists it cannot be valued (its epoch-end update
+		// fails and is not judged), which must not keep the other AVSs of the same epoch from being updated
+		cfg.Assets = append(cfg.Assets, sim.AssetCfg{Address: "0x00000000000000000000000000000000000000e0", LzChainID: 101, Decimals: 18, HasOracle: false})
+	}
 	if o.OracleStart > 0 {
 		for i := range cfg.Assets {
 			cfg.Assets[i].FeederStart = o.OracleStart
@@ -371,16 +376,36 @@ func (w *World) RunLedger(o LedgerOpts) {
 	if o.Profile == "power" {
 		wPrice, wAvsOpt = 45, 45
 		ids := []string{"minute", "hour", "minute"}
-		for i := 0; i < 1+r.Intn(2); i++ {
+		nExtra := 1 + r.Intn(2)
+		unpriced, which := "", 0
+		for i, a := range w.C.Gen.Cfg.Assets {
+			if !a.HasOracle && !a.NST && a.Address == "0x00000000000000000000000000000000000000e0" {
+				unpriced = w.Assets[i].ID
+			}
+		}
+		if unpriced != "" {
+			which = r.Intn(2)
+			nExtra = 2 // one AVS that cannot be valued next to one that can, both on the validator set's epoch identifier
+		}
+		for i := 0; i < nExtra; i++ {
 			owner := w.C.Gen.Cfg.Accounts[4+i]
 			var assets []string
 			for _, a := range w.Assets {
+				if a.ID == unpriced {
+					continue
+				}
 				if r.Intn(2) == 0 || len(assets) == 0 {
 					assets = append(assets, a.ID)
 				}
 			}
 			spec := AVSSpec{Owner: owner, Name: fmt.Sprintf("avs%d", i), Assets: assets, MinSelf: []uint64{0, 0, 1, 50, 1000}[r.Intn(5)],
 				EpochID: ids[r.Intn(len(ids))], Unbonding: uint64(1 + r.Intn(3)), TaskAddr: sim.NewAccount(fmt.Sprintf("task%d", i)).Eth}
+			if unpriced != "" {
+				spec.EpochID = "minute"
+				if i == which { // either the one that sorts first or the one that sorts last among the AVSs of the epoch
+					spec.Assets = append(spec.Assets, unpriced)
+				}
+			}
 			if st := w.RegisterAVS(spec); st.Ack {
 				extraAVS = append(extraAVS, owner.Eth.String())
 				avsSpecs[owner.Eth.String()] = spec
